@@ -37,6 +37,7 @@ func c17Run(r *Run) {
 	isReflectType := func(t types.Type) bool { return isNamed(t, "reflect", "Type") }
 	isReflectValue := func(t types.Type) bool { return isNamed(t, "reflect", "Value") }
 	c17ZeroTests(r, rp)
+	c17IntRoute(r, rp, up)
 	// shape-independent form of KIND: in every converter (a function with a reflect.Type parameter whose
 	// first result is a reflect.Value) a returned value built with reflect.ValueOf is converted to that
 	// type parameter; unsupported kinds end in an error
@@ -967,4 +968,186 @@ func c17AlwaysFailing(p *packages.Package, t types.Type) bool {
 		}
 	}
 	return n > 0
+}
+
+// c17IntRoute: a script value that may be an int does not travel through float64 on its way into an
+// integer on the Go side. IntValue answers the float conversion (AsFloat) too, and float64 holds integers
+// exactly only up to 2^53, so `f, ok := v.(AsFloat)` … `intN(f.AsFloat())` alters large ints and turns
+// PHP_INT_MAX into MinInt64. In the bridge (packages runtime and utils): a float obtained from operand X
+// through the float-conversion interface and then converted to an integer type is a violation unless X is
+// known not to be an int there — the assertion sits in the else branch of (or after a terminating) test of
+// X for int-ness, or in a type-switch clause that follows one taking the int value type / AsInt.
+func c17IntRoute(r *Run, pkgs ...*packages.Package) {
+	r.curRule = "C17-NARROW"
+	dataPath := modPath + "/data"
+	for _, p := range pkgs {
+		if p == nil {
+			continue
+		}
+		info := p.TypesInfo
+		isIntish := func(t types.Type) bool {
+			return t != nil && (isNamed(t, dataPath, "AsInt") || isNamed(t, dataPath, "IntValue"))
+		}
+		objOf := func(e ast.Expr) types.Object {
+			if id, ok := ast.Unparen(e).(*ast.Ident); ok {
+				if o := info.Defs[id]; o != nil {
+					return o
+				}
+				return info.Uses[id]
+			}
+			return nil
+		}
+		for _, fd := range funcDecls(p) {
+			if fd.Body == nil {
+				continue
+			}
+			parents := map[ast.Node]ast.Node{}
+			var stack []ast.Node
+			ast.Inspect(fd.Body, func(n ast.Node) bool {
+				if n == nil {
+					stack = stack[:len(stack)-1]
+					return true
+				}
+				if len(stack) > 0 {
+					parents[n] = stack[len(stack)-1]
+				}
+				stack = append(stack, n)
+				return true
+			})
+			// float views: f, ok := X.(AsFloat)  /  switch f := X.(type) { case AsFloat: }
+			type view struct {
+				x  types.Object
+				at ast.Node
+			}
+			views := map[types.Object]view{}
+			ast.Inspect(fd.Body, func(n ast.Node) bool {
+				switch x := n.(type) {
+				case *ast.AssignStmt:
+					if len(x.Rhs) == 1 {
+						if ta, ok := ast.Unparen(x.Rhs[0]).(*ast.TypeAssertExpr); ok && ta.Type != nil && isNamed(info.TypeOf(ta.Type), dataPath, "AsFloat") {
+							if src := objOf(ta.X); src != nil {
+								if v := objOf(x.Lhs[0]); v != nil {
+									views[v] = view{src, x}
+								}
+							}
+						}
+					}
+				case *ast.CaseClause:
+					if o := info.Implicits[x]; o != nil && len(x.List) == 1 && isNamed(info.TypeOf(x.List[0]), dataPath, "AsFloat") {
+						if body, ok := parents[x].(*ast.BlockStmt); ok {
+							if ts, ok := parents[body].(*ast.TypeSwitchStmt); ok {
+								if as, ok := ts.Assign.(*ast.AssignStmt); ok && len(as.Rhs) == 1 {
+									if ta, ok := ast.Unparen(as.Rhs[0]).(*ast.TypeAssertExpr); ok {
+										if src := objOf(ta.X); src != nil {
+											views[o] = view{src, x}
+										}
+									}
+								}
+							}
+						}
+					}
+				}
+				return true
+			})
+			if len(views) == 0 {
+				continue
+			}
+			// floats read through a view: v, err := f.AsFloat()
+			floats := map[types.Object]view{}
+			ast.Inspect(fd.Body, func(n ast.Node) bool {
+				as, ok := n.(*ast.AssignStmt)
+				if !ok || len(as.Rhs) != 1 || len(as.Lhs) == 0 {
+					return true
+				}
+				c, ok := ast.Unparen(as.Rhs[0]).(*ast.CallExpr)
+				if !ok {
+					return true
+				}
+				if se, ok := ast.Unparen(c.Fun).(*ast.SelectorExpr); ok && se.Sel.Name == "AsFloat" && len(c.Args) == 0 {
+					if vw, ok := views[objOf(se.X)]; ok {
+						if res := objOf(as.Lhs[0]); res != nil {
+							floats[res] = vw
+						}
+					}
+				}
+				return true
+			})
+			// is X known not to be an int at node at?
+			notInt := func(x types.Object, at ast.Node) bool {
+				isIntTest := func(n ast.Node) bool {
+					hit := false
+					ast.Inspect(n, func(m ast.Node) bool {
+						if ta, ok := m.(*ast.TypeAssertExpr); ok && ta.Type != nil && isIntish(info.TypeOf(ta.Type)) && objOf(ta.X) == x {
+							hit = true
+						}
+						return true
+					})
+					return hit
+				}
+				var child ast.Node = at
+				for n := parents[at]; n != nil; child, n = n, parents[n] {
+					switch b := n.(type) {
+					case *ast.IfStmt:
+						if b.Else != nil && ast.Node(b.Else) == child {
+							if (b.Init != nil && isIntTest(b.Init)) || isIntTest(b.Cond) {
+								return true
+							}
+						}
+					case *ast.BlockStmt:
+						for _, st := range b.List {
+							if ast.Node(st) == child {
+								break
+							}
+							if is, ok := st.(*ast.IfStmt); ok && ((is.Init != nil && isIntTest(is.Init)) || isIntTest(is.Cond)) && containsReturn(is.Body) {
+								return true
+							}
+						}
+					case *ast.CaseClause:
+						if body, ok := parents[b].(*ast.BlockStmt); ok {
+							if _, ok := parents[body].(*ast.TypeSwitchStmt); ok {
+								for _, st := range body.List {
+									if st == ast.Stmt(b) {
+										break
+									}
+									for _, te := range st.(*ast.CaseClause).List {
+										if isIntish(info.TypeOf(te)) {
+											return true
+										}
+									}
+								}
+							}
+						}
+					}
+				}
+				return false
+			}
+			fk := funcKey(p, fd)
+			n := 0
+			ast.Inspect(fd.Body, func(m ast.Node) bool {
+				c, ok := m.(*ast.CallExpr)
+				if !ok || len(c.Args) != 1 {
+					return true
+				}
+				tv, ok := info.Types[c.Fun]
+				if !ok || !tv.IsType() || !isIntType(tv.Type) {
+					return true
+				}
+				vw, ok := floats[objOf(c.Args[0])]
+				if !ok {
+					return true
+				}
+				n++
+				key := fmt.Sprintf("%s#int-through-float:%s", fk, vw.x.Name())
+				if n > 1 {
+					key += fmt.Sprintf("#%d", n)
+				}
+				if notInt(vw.x, vw.at) {
+					r.ok(key, c.Pos(), "the value converted through float64 is known not to be an int here")
+				} else {
+					r.bad(key, c.Pos(), "value "+vw.x.Name()+" may be an int, is read through the float conversion (an int answers it too) and then turned into an integer: ints beyond 2^53 arrive altered on the Go side and the largest int becomes the smallest")
+				}
+				return true
+			})
+		}
+	}
 }
